@@ -1,6 +1,160 @@
 import TantivyModel.Driver.Proto
+import TantivyModel.Model.Merge
+/-!
+Line protocol of the merge model.
+
+segment  := `<alive>/<payloads>/<terms>`
+  alive    : string of `0`/`1` (`-` = no docs)
+  payloads : comma separated naturals, one per doc id (`-` = none)
+  terms    : `-` or `;`-separated `hexkey=doc:tf:pos.pos.pos,doc:tf:_`
+logical  := `<payloads>/<terms>`
+
+ops: `dump S`, `spec S…`, `model S…` (logical `/` doc_freqs), `table S…`, `store bits S…`,
+     `sm event…`
+-/
 namespace TantivyModel.Driver.C04
-/-- stub: the model for C04 is not built yet -/
+open TantivyModel TantivyModel.Proto TantivyModel.Merge
+
+def parseAlive (s : String) : Option (List Bool) :=
+  if s == "-" then some [] else
+  s.toList.mapM fun c => if c == '1' then some true else if c == '0' then some false else none
+
+def parsePos (s : String) : Option (List Nat) :=
+  if s == "_" then some [] else (s.splitOn ".").mapM (·.toNat?)
+
+def parsePosting (s : String) : Option Posting :=
+  match s.splitOn ":" with
+  | [d, tf, ps] =>
+    match d.toNat?, tf.toNat?, parsePos ps with
+    | some d, some tf, some ps => some { doc := d, tf := tf, pos := ps }
+    | _, _, _ => none
+  | _ => none
+
+def parseTerm (s : String) : Option (Key × List Posting) :=
+  match s.splitOn "=" with
+  | [k, ps] =>
+    match bytesOfHex k, (ps.splitOn ",").mapM parsePosting with
+    | some kb, some ps => some (kb.map (·.toNat), ps)
+    | _, _ => none
+  | _ => none
+
+def parseTerms (s : String) : Option (List (Key × List Posting)) :=
+  if s == "-" then some [] else (s.splitOn ";").mapM parseTerm
+
+def parseSeg (s : String) : Option (Segment Nat) :=
+  match s.splitOn "/" with
+  | [a, p, t] =>
+    match parseAlive a, natList p, parseTerms t with
+    | some a, some p, some t =>
+      if a.length = p.length then some { docs := p, alive := a, terms := t } else none
+    | _, _, _ => none
+  | _ => none
+
+def showPosting (p : Posting) : String :=
+  toString p.doc ++ ":" ++ toString p.tf ++ ":" ++
+    (if p.pos.isEmpty then "_" else ".".intercalate (p.pos.map toString))
+
+def showKey (k : Key) : String := hexOfBytes (k.map UInt8.ofNat)
+
+def showTerms (ts : List (Key × List Posting)) : String :=
+  if ts.isEmpty then "-" else
+  ";".intercalate (ts.map fun t => showKey t.1 ++ "=" ++ ",".intercalate (t.2.map showPosting))
+
+def showLogical (l : LogicalSegment Nat) : String :=
+  showNatList l.docs ++ "/" ++ showTerms l.terms
+
+/-! ### updater state machine script -/
+
+def parseDocRec (s : String) : Option DocRec :=
+  match (s.splitOn ".").mapM (·.toNat?) with
+  | some (u :: ks) => some { uid := u, keys := ks }
+  | _ => none
+
+structure Sm where
+  st : State
+  running : List (Nat × Running)
+
+def findSources (reg : List Entry) (ids : List Nat) : List Entry :=
+  ids.filterMap fun i => reg.find? fun e => e.segId == i
+
+def smStep (s : Sm) (ev : String) : Option Sm :=
+  match ev.splitOn ":" with
+  | ["seg", id, docs, reg] =>
+    match id.toNat?, (if docs == "-" then some [] else (docs.splitOn ",").mapM parseDocRec) with
+    | some id, some ds =>
+      let e : Entry := { segId := id, docs := ds, alive := List.replicate ds.length true,
+                         cursor := s.st.queue.length }
+      if reg == "c" then
+        some { s with st := { s.st with committed := s.st.committed ++ [e],
+                                         published := s.st.published ++ [e] } }
+      else if reg == "u" then
+        some { s with st := { s.st with uncommitted := s.st.uncommitted ++ [e] } }
+      else none
+    | _, _ => none
+  | ["del", o, k] =>
+    match o.toNat?, k.toNat? with
+    | some o, some k => some { s with st := pushDelete s.st { opstamp := o, key := k } }
+    | _, _ => none
+  | ["commit", o] => o.toNat?.map fun o => { s with st := commit s.st o }
+  | ["rollback"] => some { s with st := rollback s.st }
+  | ["delall"] => some { s with st := deleteAll s.st }
+  | ["start", idx, target, newId, ids] =>
+    match idx.toNat?, target.toNat?, newId.toNat?, natList ids with
+    | some idx, some target, some newId, some ids =>
+      let reg := if containsAll s.st.uncommitted ids then some s.st.uncommitted
+                 else if containsAll s.st.committed ids then some s.st.committed else none
+      reg.map fun reg =>
+        let r : Running := { sources := ids, epoch := s.st.epoch,
+                             merged := mergeEntries s.st.queue (findSources reg ids) target newId }
+        { s with running := (idx, r) :: s.running }
+    | _, _, _, _ => none
+  | ["end", idx] =>
+    match idx.toNat? with
+    | some idx => (s.running.lookup idx).map fun r => { s with st := endMerge s.st r }
+    | none => none
+  | ["endnr", idx] =>
+    match idx.toNat? with
+    | some idx => (s.running.lookup idx).map fun r => { s with st := endMergeWith false s.st r }
+    | none => none
+  | _ => none
+
+def sortNat (l : List Nat) : List Nat := (l.toArray.qsort (· < ·)).toList
+
+def smRun (evs : List String) : Option Sm :=
+  evs.foldlM smStep { st := { queue := [], committed := [], uncommitted := [],
+                              committedOpstamp := 0, published := [], epoch := 0 },
+                      running := [] }
+
 def handle : List String → String
+  | ["dump", s] =>
+    match parseSeg s with
+    | some s => showLogical (dump s)
+    | none => "bad-op"
+  | "spec" :: ss =>
+    match ss.mapM parseSeg with
+    | some segs => showLogical (mergeSpec segs)
+    | none => "bad-op"
+  | "model" :: ss =>
+    match ss.mapM parseSeg with
+    | some segs =>
+      showLogical (dump (mergeModel segs)) ++ "/" ++ showNatList ((mergedTerms segs).map (·.2.1))
+    | none => "bad-op"
+  | "table" :: ss =>
+    match ss.mapM parseSeg with
+    | some segs =>
+      let tbl := newToOld segs
+      (if tbl.isEmpty then "-" else ",".intercalate (tbl.map fun a => toString a.1 ++ ":" ++ toString a.2))
+        ++ "/" ++ (if segs.any (fun s => hasDeletes s.alive) then "stacked-with-deletes" else "stacked")
+    | none => "bad-op"
+  | "store" :: bits :: ss =>
+    match parseAlive bits, ss.mapM parseSeg with
+    | some bits, some segs => showNatList (mergedStore (fun i => bits.getD i false) 0 segs)
+    | _, _ => "bad-op"
+  | "sm" :: evs =>
+    match smRun evs with
+    | some s => "pub=" ++ showNatList (sortNat (publishedUids s.st)) ++ "/pend=" ++
+        showNatList (sortNat (pendingUids s.st (s.st.queue.foldl (fun m op => max m op.opstamp) s.st.committedOpstamp)))
+    | none => "bad-op"
   | _ => "bad-op"
+
 end TantivyModel.Driver.C04
